@@ -38,12 +38,21 @@ pub const SUB_NAMES: [&str; NMETH] = ["subA", "subB"];
 pub const NOTIF_NAMES: [&str; NMETH] = ["nA", "nB"];
 pub const UNSUB_NAMES: [&str; NMETH] = ["unsubA", "unsubB"];
 
-/// Deterministic subscription ids: 1, 2, 3, … (one counter per server, as `ServerConfig::id_provider`).
+/// Scripted subscription ids (one provider per server, as `ServerConfig::id_provider`): the id the
+/// next admitted subscribe call gets is preset by the script (`ss sub c m rid <sid>`), so a case can
+/// use a counter (1, 2, 3, …), re-use the id of a subscription that was unsubscribed / has ended
+/// (ids need only be unique among the live subscriptions of a connection), use the same id on two
+/// connections, or — deliberately undisciplined — hand out an id that is still registered.
 #[derive(Debug, Default)]
 pub struct CounterIds(pub AtomicU64);
 impl IdProvider for CounterIds {
 	fn next_id(&self) -> SubscriptionId<'static> {
-		SubscriptionId::Num(self.0.fetch_add(1, Ordering::SeqCst) + 1)
+		SubscriptionId::Num(self.0.load(Ordering::SeqCst))
+	}
+}
+impl CounterIds {
+	pub fn preset(&self, sid: u64) {
+		self.0.store(sid, Ordering::SeqCst);
 	}
 }
 #[derive(Debug, Clone)]
@@ -492,6 +501,16 @@ pub struct BSub {
 	pub resp_seen: bool,
 	/// a send/is_closed told the script the subscription is closed
 	pub closed_reported: bool,
+	/// the id provider handed this id out again while this subscription was still registered and
+	/// the newer one was accepted: the newer subscription has taken over the (connection, id) entry
+	pub displaced: bool,
+}
+
+impl BSub {
+	/// registered under its (connection, method, id) key as far as the script can tell
+	pub fn registered(&self) -> bool {
+		self.phase == BPhase::Accepted && !self.unsub && self.clones > 0 && !self.displaced
+	}
 }
 
 #[derive(Clone, Debug, Default)]
@@ -506,8 +525,13 @@ impl Book {
 	pub fn holding(&self, c: usize) -> u32 {
 		self.subs.iter().filter(|s| s.conn == c && (s.phase == BPhase::Pending || s.clones > 0)).count() as u32
 	}
+	/// the newest subscription that was given this id (ids may be re-used)
 	pub fn by_sid(&self, sid: u64) -> Option<usize> {
-		self.subs.iter().position(|s| s.sid == sid)
+		self.subs.iter().rposition(|s| s.sid == sid)
+	}
+	/// the newest subscription under this (connection, id) whose accept response is expected on `c`
+	pub fn by_conn_sid(&self, c: usize, sid: u64) -> Option<usize> {
+		self.subs.iter().rposition(|s| s.sid == sid && s.conn == c).or_else(|| self.by_sid(sid))
 	}
 }
 
@@ -584,7 +608,7 @@ impl CaseRun {
 	/// expected "active" per the statement of C06, from the script alone
 	fn expect_active(&self, k: usize) -> bool {
 		let s = &self.book.subs[k];
-		s.phase == BPhase::Accepted && !s.unsub && s.clones > 0 && self.conn_serving(s.conn)
+		s.registered() && self.conn_serving(s.conn)
 	}
 
 	/// deviation of a closed/active observation from the statement.  (Finding F-13 — dropping a
@@ -594,6 +618,8 @@ impl CaseRun {
 		let s = &self.book.subs[k];
 		if s.nonlast_drop && s.phase == BPhase::Accepted && !s.unsub && s.clones > 0 {
 			Err(format!("{what} (sub {} on conn {}: a clone of the sink was dropped earlier while {} handle(s) remain — regression of fix 2bde692 / finding F-13?)", s.sid, s.conn, s.clones))
+		} else if self.book.subs.iter().enumerate().any(|(j, o)| j != k && o.conn == s.conn && o.meth == s.meth && o.sid == s.sid) {
+			Err(format!("{what} (id {} was handed out more than once on conn {}: did the late sink release / unsubscribe of an older subscription with this id remove the entry of the newer one?)", s.sid, s.conn))
 		} else {
 			Err(what)
 		}
@@ -638,7 +664,7 @@ impl CaseRun {
 			"resp" => {
 				let sid: u64 = w[2].parse().map_err(|_| format!("bad frame {f}"))?;
 				let rid: u64 = w[1].parse().map_err(|_| format!("bad frame {f}"))?;
-				let Some(k) = self.book.by_sid(sid) else { return Err(format!("accept response for unknown subscription: {f}")) };
+				let Some(k) = self.book.by_conn_sid(c, sid) else { return Err(format!("accept response for unknown subscription: {f}")) };
 				let s = &mut self.book.subs[k];
 				if s.conn != c || s.rid != rid {
 					return Err(format!("accept response {f} on conn {c} does not belong to call {} on conn {}", s.rid, s.conn));
@@ -652,7 +678,7 @@ impl CaseRun {
 			"ntf" | "nerr" => {
 				let sid: u64 = w[2].parse().map_err(|_| format!("bad frame {f}"))?;
 				let p: u64 = w[3].parse().map_err(|_| format!("bad frame {f}"))?;
-				let Some(k) = self.book.by_sid(sid) else { return Err(format!("notification for unknown subscription id: {f}")) };
+				let Some(k) = self.book.by_conn_sid(c, sid) else { return Err(format!("notification for unknown subscription id: {f}")) };
 				let s = &mut self.book.subs[k];
 				// 1. own id / method / connection
 				if s.conn != c {
@@ -717,6 +743,14 @@ impl CaseRun {
 				match tokio::time::timeout(Duration::from_millis(1), p.accept()).await {
 					Ok(Ok(sink)) => {
 						self.subs[k].sinks.push(sink);
+						// an id handed out again while its previous holder was still registered: the newer
+						// subscription takes over the (connection, method, id) entry
+						let (kc, km, ks) = (self.book.subs[k].conn, self.book.subs[k].meth, self.book.subs[k].sid);
+						for (j, b) in self.book.subs.iter_mut().enumerate() {
+							if j != k && b.conn == kc && b.meth == km && b.sid == ks && b.registered() {
+								b.displaced = true;
+							}
+						}
 						self.book.subs[k].phase = BPhase::Accepted;
 						self.book.subs[k].clones = 1;
 						if !serving_before {
@@ -796,11 +830,13 @@ impl CaseRun {
 		let verb = w[1];
 		let out: String = match verb {
 			"sub" => {
-				let (Some(c), Some(m), Some(rid)) = (num(2), num(3), num(4)) else { return bad("bad-op") };
+				let (Some(c), Some(m), Some(rid), Some(sid)) = (num(2), num(3), num(4), num(5)) else { return bad("bad-op") };
 				let (c, m) = (c as usize, m as usize);
 				if c >= self.nconns || m >= NMETH {
 					"bad".into()
 				} else {
+					// what the id provider hands out if this call gets a permit
+					self.env.ids.preset(sid);
 					let holding = self.book.holding(c);
 					let serving = self.conn_serving(c) && !self.book.stopped;
 					let res: String = if self.eager {
@@ -834,7 +870,11 @@ impl CaseRun {
 							close_seen: 0,
 							resp_seen: false,
 							closed_reported: false,
+							displaced: false,
 						});
+						if h.sid != sid {
+							oracle_merge(&mut orc, Err(format!("handler got subscription id {}, the id provider handed out {sid}", h.sid)));
+						}
 						if h.conn != c || h.meth != m {
 							oracle_merge(&mut orc, Err(format!("handler invoked for conn {} method {}, call was on conn {c} method {m}", h.conn, h.meth)));
 						}
@@ -1004,7 +1044,14 @@ impl CaseRun {
 					"bad".into()
 				} else {
 					// C06.1: the truth table, from the script alone
-					let target = self.book.subs.iter().position(|s| s.conn == c && s.meth == m && s.sid == x);
+					// (ids may be re-used: the call names the subscription CURRENTLY registered under the id
+					// on this connection; older holders of the id are only shown in messages)
+					let target = self
+						.book
+						.subs
+						.iter()
+						.rposition(|s| s.conn == c && s.meth == m && s.sid == x && s.registered())
+						.or_else(|| self.book.subs.iter().rposition(|s| s.conn == c && s.meth == m && s.sid == x));
 					let expect = target.map(|k| self.expect_active(k)).unwrap_or(false);
 					let mut known: Option<bool> = None;
 					let res: String = if self.eager {
@@ -1154,6 +1201,8 @@ pub struct Profile {
 	pub w_wstep: u64,
 	/// compound steps without a yield in between: accept+send, bursts of sends
 	pub w_burst: u64,
+	/// how many subscribe calls in 10 get a re-used subscription id (0 = ids never repeat)
+	pub reuse_ids: u64,
 	/// end every case with the refill-to-cap tail (C06) instead of draining the queues (C04)
 	pub tail: bool,
 }
@@ -1174,6 +1223,8 @@ pub fn drain_lines(run: &CaseRun) -> Vec<String> {
 
 pub struct Gen {
 	pub next_rid: u64,
+	/// fresh subscription ids (counter)
+	pub next_sid: u64,
 	pub next_payload: u64,
 	pub next_close: u64,
 }
@@ -1186,6 +1237,36 @@ impl Gen {
 }
 
 /// one state-aware random op line
+/// The id the provider hands out for the next subscribe on (c, m): a fresh one (`SID` = counter),
+/// or — `pf.reuse_ids` in 10 — a re-used one: mostly an id that is FREE on (c, m) (its previous
+/// holder there was unsubscribed / rejected / has ended — possibly still holding its sink — or the id
+/// is only in use on another connection / method), rarely (1 in 12 of the re-uses) an id that is
+/// still pending or registered on (c, m) (an undisciplined provider: the newer accept takes over).
+fn choose_sid(rng: &mut Rng, book: &Book, c: usize, m: usize, pf: &Profile) -> String {
+	if pf.reuse_ids == 0 || book.subs.is_empty() || !rng.chance(pf.reuse_ids, 10) {
+		return "SID".into();
+	}
+	let live_here = |sid: u64| book.subs.iter().any(|s| s.conn == c && s.meth == m && s.sid == sid && (s.phase == BPhase::Pending || s.registered()));
+	let undisciplined = rng.chance(1, 12);
+	// prefer ids whose previous holder on (c, m) still holds a sink (the late-release window)
+	let mut cands: Vec<u64> = vec![];
+	for s in &book.subs {
+		if undisciplined {
+			if live_here(s.sid) {
+				cands.push(s.sid);
+			}
+		} else if !live_here(s.sid) {
+			cands.push(s.sid);
+			if s.conn == c && s.meth == m && s.clones > 0 {
+				cands.push(s.sid);
+				cands.push(s.sid);
+				cands.push(s.sid);
+			}
+		}
+	}
+	if cands.is_empty() { "SID".into() } else { rng.pick(&cands).to_string() }
+}
+
 pub fn gen_line(rng: &mut Rng, run: &CaseRun, g: &mut Gen, pf: &Profile) -> String {
 	let book = &run.book;
 	let n = run.nconns as u64;
@@ -1193,7 +1274,9 @@ pub fn gen_line(rng: &mut Rng, run: &CaseRun, g: &mut Gen, pf: &Profile) -> Stri
 	// subscribe
 	for c in 0..run.nconns {
 		let w = if book.peer_closed[c] { 1 } else if book.holding(c) <= book.cap { 6 } else { 2 };
-		opts.push((w, format!("ss sub {c} {} RID", rng.below(NMETH as u64))));
+		let m = rng.below(NMETH as u64) as usize;
+		let sid = choose_sid(rng, book, c, m, pf);
+		opts.push((w, format!("ss sub {c} {m} RID {sid}")));
 	}
 	for (k, s) in run.subs.iter().enumerate() {
 		let b = &book.subs[k];
@@ -1227,7 +1310,7 @@ pub fn gen_line(rng: &mut Rng, run: &CaseRun, g: &mut Gen, pf: &Profile) -> Stri
 		opts.push((1, format!("ss unsub {} {} {} RID", b.conn, (b.meth + 1) % NMETH, b.sid)));
 	}
 	// unknown id
-	opts.push((1, format!("ss unsub {} {} {} RID", rng.below(n), rng.below(NMETH as u64), 50 + rng.below(5))));
+	opts.push((1, format!("ss unsub {} {} {} RID", rng.below(n), rng.below(NMETH as u64), 900 + rng.below(5))));
 	// faults
 	for c in 0..run.nconns {
 		if !book.peer_closed[c] {
@@ -1262,6 +1345,10 @@ pub fn gen_line(rng: &mut Rng, run: &CaseRun, g: &mut Gen, pf: &Profile) -> Stri
 
 pub fn fill(line: String, g: &mut Gen) -> String {
 	let mut line = line;
+	if line.contains("SID") {
+		g.next_sid += 1;
+		line = line.replace("SID", &g.next_sid.to_string());
+	}
 	if line.contains("RID") {
 		line = line.replace("RID", &g.rid().to_string());
 	}
@@ -1295,7 +1382,8 @@ pub fn tail_lines(run: &CaseRun, g: &mut Gen) -> Vec<String> {
 		}
 		let free = run.book.cap.saturating_sub(run.book.holding(c));
 		for _ in 0..free + 1 {
-			v.push(format!("ss sub {c} 0 {}", g.rid()));
+			g.next_sid += 1;
+			v.push(format!("ss sub {c} 0 {} {}", g.rid(), g.next_sid));
 		}
 	}
 	v
@@ -1347,7 +1435,7 @@ pub fn run_generated(out: &mut Out, rng: &mut Rng, caseno: u64, eager: bool, nco
 	rt.block_on(async {
 		let mut run = CaseRun::new(&header, pf.check_c06, pf.check_c04).await.unwrap();
 		out.line(header.clone(), "case".into(), Ok(()), false);
-		let mut g = Gen { next_rid: 100, next_payload: 0, next_close: 0 };
+		let mut g = Gen { next_rid: 100, next_sid: 0, next_payload: 0, next_close: 0 };
 		let mut ctx = fxhash(header.split_whitespace().skip(2).collect::<Vec<_>>().join(" ").as_bytes());
 		for _ in 0..nops {
 			let l = gen_line(rng, &run, &mut g, pf);
@@ -1378,9 +1466,10 @@ pub fn split_cases(lines: Vec<String>) -> Vec<Vec<String>> {
 }
 
 /// every script over a 9-op alphabet up to length `maxlen` (one connection, cap 1)
+/// every script over a 9-op alphabet up to length `maxlen` (one connection, cap 1, ids never repeat)
 pub fn exhaustive(out: &mut Out, maxlen: usize, caseno: &mut u64, pf: &Profile) {
-	let alphabet: [&str; 9] = [
-		"ss sub 0 0 RID",
+	let alphabet = [
+		"ss sub 0 0 RID SID",
 		"ss accept 0",
 		"ss reject 0 -1",
 		"ss send 0 PAY",
@@ -1390,6 +1479,29 @@ pub fn exhaustive(out: &mut Out, maxlen: usize, caseno: &mut u64, pf: &Profile) 
 		"ss ret 0 err:CLOSE",
 		"ss connclose 0 abrupt",
 	];
+	exhaustive_over(out, &alphabet, 1, &["ss sub 0 0 RID SID"], maxlen, caseno, pf, "exhaustive.scripts");
+}
+
+/// every script over a 7-op alphabet in which the id provider hands out the SAME id (1) to every
+/// subscribe call on one connection (cap 2): unsubscribe / late sink release of the first holder
+/// against the second holder of the id, in every order; each script ends with the observations
+/// is_closed of both, unsubscribe of the id, and one more subscribe
+pub fn exhaustive_reuse(out: &mut Out, maxlen: usize, caseno: &mut u64, pf: &Profile) {
+	let alphabet = [
+		"ss sub 0 0 RID 1",
+		"ss accept 0",
+		"ss accept 1",
+		"ss unsub 0 0 1 RID",
+		"ss dropsink 0",
+		"ss dropsink 1",
+		"ss clone 0",
+	];
+	let tail = ["ss isclosed 0", "ss isclosed 1", "ss send 1 PAY", "ss unsub 0 0 1 RID", "ss sub 0 0 RID 1"];
+	exhaustive_over(out, &alphabet, 2, &tail, maxlen, caseno, pf, "exhaustive.id-reuse-scripts");
+}
+
+#[allow(clippy::too_many_arguments)]
+fn exhaustive_over(out: &mut Out, alphabet: &[&str], cap: u32, tail: &[&str], maxlen: usize, caseno: &mut u64, pf: &Profile, counter: &str) {
 	let mut idx = vec![0usize; 0];
 	loop {
 		// next word in length-lexicographic order
@@ -1416,14 +1528,15 @@ pub fn exhaustive(out: &mut Out, maxlen: usize, caseno: &mut u64, pf: &Profile) 
 			continue;
 		}
 		*caseno += 1;
-		let mut g = Gen { next_rid: 100, next_payload: 0, next_close: 0 };
-		let mut lines = vec![format!("case {caseno} subs mode=eager cap=1 qcap=1024 conns=1")];
+		let mut g = Gen { next_rid: 100, next_sid: 0, next_payload: 0, next_close: 0 };
+		let mut lines = vec![format!("case {caseno} subs mode=eager cap={cap} qcap=1024 conns=1")];
 		for &a in &idx {
 			lines.push(fill(alphabet[a].to_string(), &mut g));
 		}
-		lines.push(fill("ss sub 0 0 RID".to_string(), &mut g));
+		for t in tail {
+			lines.push(fill(t.to_string(), &mut g));
+		}
 		run_fixed(out, &lines, pf);
-		out.count("exhaustive.scripts");
+		out.count(counter);
 	}
 }
-
